@@ -334,6 +334,16 @@ def check(ctx):
                 and app[0][2] == (pop[0],)
                 and start == ("list", (("s", ("a", SELF, "_nodes"), n("name")),))
                 and rr.ret() is not None and rr.ret()[0] in ("loop", "list", "n", "carried"))
+        if ok_r:
+            # a node is expanded and recorded exactly when it was not recorded before, and
+            # the recorded list is what is returned
+            seen_t = app[0][1][1]
+            member = ("cmp", "in", pop[0], seen_t)
+            conds_ = {tuple(cd) for t, _, cd in lp["calls"] if t in (ext[0], app[0])}
+            ok_r = (len(conds_) == 1 and [(a, p_) for a, p_ in next(iter(conds_))
+                                          if a[0] != "inloop"] == [(member, False)]
+                    and seen_t[0] == "carried" and seen_t[2][0] == "list" and seen_t[2][1] == ()
+                    and rr.ret() == ("loop", seen_t[1], ("mut", seen_t, "append", (pop[0],), ())))
     ctx.ob("C01.R6", rin, "_recursive_inputs is the worklist closure of the named node "
                           "under all_input_nodes() (including `at` of distributions), the "
                           "node itself included", ok_r,
